@@ -64,7 +64,7 @@ def to_coq(c, o):
             return f"(CEdge {cstr(c['a'])} {cstr(c['b'])} {cstr(c['c'])} {cstr(c['d'])} true {cbool(o['contains'])} 0 1)"
         return f"(CEdge {cstr(c['a'])} {cstr(c['b'])} {cstr(c['c'])} {cstr(c['d'])} {cbool(eq)} {cbool(o['contains'])} {cz(o['h1'])} {cz(o['h2'])})"
     if k == 'uniq':
-        return f"(CUniq {clist([cz(x) for x in c['l']])} {clist([cz(x) for x in o['r']])})"
+        return f"(CUniq {clist([cz(x) for x in c['l']])} {clist([cz(x) for x in o['r']])} {clist([cz(x) for x in o['pos']])})"
 
 
 def kind(c):
